@@ -144,7 +144,7 @@ impl<T: Neg> Neg for IntOfLog<T> {
 impl<T: Evaluate> Evaluate for IntOfLog<T> {
     #[inline]
     fn evaluate(&self, v: f64) -> f64 {
-        self.k + self.poly.evaluate(v.ln())
+        v.mul_add(self.poly.evaluate(v.ln()), self.k)
     }
 }
 
